@@ -128,7 +128,7 @@ def gen_core(seed: int, tier: str = "quick", force=None, transport_mix="mixed",
         s = {
             "sid": f"S{i}", "type": typ, "group": rng.randrange(len(groups)),
             "n_ent": 2 if (feats["multi_ent"] and rng.random() < 0.5) else 1,
-            "meta_style": rng.choice([0, 0, 1, 2]) if typ == "hybrid" else rng.choice([0, 0, 1]),
+            "meta_style": rng.choice([0, 0, 1, 2, 3]) if typ == "hybrid" else rng.choice([0, 0, 1]),
             "transport": pick_weighted(rng, mix),
             "beh": gen_beh(rng, typ, feats),
         }
@@ -143,7 +143,7 @@ def gen_core(seed: int, tier: str = "quick", force=None, transport_mix="mixed",
         if feats.get("any_inputs") and rng.random() < 0.4:
             # accepts inputs on attributes it never declared
             s["any_inputs"] = True
-            s["meta_style"] = s["meta_style"] if (typ == "hybrid" and s["meta_style"] in (0, 1)) else 0
+            s["meta_style"] = s["meta_style"] if (typ == "hybrid" and s["meta_style"] in (0, 1, 3)) else 0
         sims.append(s)
     paths = group_paths({"groups": groups})
     conns: List[Dict[str, Any]] = []
@@ -861,6 +861,13 @@ def gen_twopath(seed: int, tier: str = "quick") -> Dict[str, Any]:
         {"src": 0, "se": rng.choice([0, 1]), "dst": 3, "de": 0, "pairs": [["e_out", "t_in"]], "shift": 0, "weak": False},
         {"src": 3, "se": 0, "dst": 2, "de": 1, "pairs": [["e_out", "t_in"]], "shift": k2, "weak": False},
     ]
+    if rng.random() < 0.35:
+        # the detour runs through two simulators outside the group: X -> R -> R2 -> Y
+        R2 = mk("R2", rng.choice(["event-based", "hybrid"]), 2 if (outside_group and rng.random() < 0.5) else 0,
+                loop_len=None)
+        sims.append(R2)
+        conns[4] = {"src": 3, "se": 0, "dst": 4, "de": 0, "pairs": [["e_out", "t_in"]], "shift": 0, "weak": False}
+        conns.append({"src": 4, "se": 0, "dst": 2, "de": 1, "pairs": [["e_out", "t_in"]], "shift": k2, "weak": False})
     if rng.random() < 0.3:
         # a consumer of Y outside, or a feedback from Y into the loop over a shifted connection
         conns.append({"src": 2, "se": 0, "dst": 0, "de": 1, "pairs": [["e_out", "t_in"]], "shift": 1, "weak": False})
